@@ -195,4 +195,30 @@ def step (fields : List String) : String :=
     s!"{cid} eq={boolS ok} firstbad={optNatS firstBad} SPEC={specVerdict (parseTree tree) invs impl} ABS={absVerdict (parseTree tree) invs impl} C08S={c08Statement (parseTree tree) invs impl} C10={c10 invs impl} C15={c15 impl} C19={c19 impl} C11={c11 impl} model={"|".intercalate m}"
   | _ => "bad-line"
 
+/-- Engine `F` (C18): one invocation with the k-th file-system write failing.
+`F|id|tree|args|k|=>|exit=..;tree=..;op=..;msg=..;nops=..` -/
+def stepF (fields : List String) : String :=
+  match fields with
+  | [_, cid, tree, a, k, _, impl] =>
+    let fs := parseTree tree
+    let inv := parseArgs (if a == "-" then [] else a.splitOn " ") ()
+    let (out, w) := push inv.cfg { fs := fs, faultAt := some (natOf k) }
+    let (_, w0) := push inv.cfg { fs := fs }
+    -- the tree at the point of failure depends on the order in which the files are saved (HashMap
+    -- iteration order, unspecified): exit status and the number of operations of the fault-free run are compared
+    let _ := w
+    let m := s!"exit={out.exit};nops={w0.trace.length}"
+    let i := s!"exit={fieldOf impl "exit"};nops={fieldOf impl "nops"}"
+    -- C18 on the implementation: non-zero exit, no crash, a message naming the file, nothing recorded
+    let appliedBefore := match fs.readFile appliedKey with | .ok (b, _) => b | .error _ => []
+    let appliedAfter := match (parseTree (fieldOf impl "tree")).readFile appliedKey with | .ok (b, _) => b | .error _ => []
+    let c18 :=
+      if fieldOf impl "exit" == "101" then "FAIL:crash"
+      else if fieldOf impl "exit" != "1" then "FAIL:reported-success"
+      else if appliedAfter != appliedBefore then "FAIL:recorded-as-applied"
+      else if fieldOf impl "msg" != "1" then "FAIL:message-does-not-name-the-file"
+      else "ok"
+    s!"{cid} eq={boolS (m == i)} C18={c18} model={m}"
+  | _ => "bad-line"
+
 end RQ.PushEngine
